@@ -108,7 +108,7 @@ def txPowerAdjust (r : RegionId) (p : Nat) : M (Option Nat) := do
   pure (v.map Int.toNat)
 
 def rx2Frequency : RegionId → Nat
-  | .AS923_1 => 923200000 | .AS923_2 => 921400000 | .AS923_3 => 916500000 | .AS923_4 => 917300000
+  | .AS923_1 => 923200000 | .AS923_2 => 921400000 | .AS923_3 => 916600000 | .AS923_4 => 917300000
   | .AU915 => 923300000 | .EU868 => 869525000 | .EU433 => 434665000 | .IN865 => 866550000
   | .US915 => 923300000
 
